@@ -213,20 +213,25 @@ def run(ctx):
                 got = operations._handle_annotations(prop, tuple(args))
                 h_lines.append("ahandle %s | %s" % (aexpr(prop), " ".join(aexpr(x) for x in aa)))
                 h_expect.append("none" if got is None else "annos=%s unelim=%s" % (srt(set(got.annotations)), srt(all_unelim(got))))
-        # explicit simplification keeps top annotations + direct arguments' relocatable ones
+        # explicit simplification keeps top annotations + direct arguments' relocatable ones — also when the answer
+        # comes from the simplification cache (second and third call on the same expression)
         if rng.random() < 0.08 and not a.is_leaf():
             top = a.annotate(g.anno())
-            try:
-                s = claripy.simplify(top)
-            except claripy.errors.ClaripyError:
-                s = None
-            if s is not None:
+            keep = []
+            for call in (1, 2, 3):
+                try:
+                    s = claripy.simplify(top)
+                except claripy.errors.ClaripyError:
+                    break
+                keep.append(s)
                 ctx.count()
                 want = set(top.annotations) | set().union(*[carried_reloc(x) for x in top.args if isinstance(x, claripy.ast.Base)] or [set()])
                 miss = want - set(s.annotations)
                 if miss:
-                    ctx.violation("C07/simplify/top-annotations-lost", "claripy.simplify(%r) = %r lost %s" % (top, s, srt(miss)),
-                                  {"expr": aexpr(top), "simplified": aexpr(s), "lost": srt(miss)})
+                    ctx.violation("C07/simplify/top-annotations-lost" + ("" if call == 1 else "/cached-call"),
+                                  "claripy.simplify(%r) call #%d = %r lost %s" % (top, call, s, srt(miss)),
+                                  {"expr": aexpr(top), "simplified": aexpr(s), "lost": srt(miss), "call": call, "rebuild_top": spec(top)})
+                    break
     # solver: constraints with a simplification-avoidance annotation are never rewritten
     for k in range(ctx.pick(60, 600)):
         s = claripy.Solver()
@@ -272,6 +277,16 @@ def run(ctx):
 
 def replay(ctx, obj):
     r = obj["replay"]
+    if "rebuild_top" in r:
+        top = unspec(r["rebuild_top"])
+        keep = []
+        for call in (1, 2, 3):
+            s = claripy.simplify(top); keep.append(s)
+            miss = set(top.annotations) - set(s.annotations)
+            print("call", call, "->", aexpr(s))
+            if miss:
+                print("lost", srt(miss)); print("VIOLATION property=C07 replay=(given)"); return 1
+        print("annotations kept on every call"); return 0
     if "rebuild" not in r:
         print(r); print("no rebuild recipe stored for this kind of violation; re-run the check with the recorded seed"); return 1
     args = [unspec(x) for x in r["rebuild"]]
